@@ -23,6 +23,7 @@ import SJ.Drv.StreamTyped
 import SJ.Drv.LineCol
 import SJ.Drv.C19b
 import SJ.Drv.Readers
+import SJ.Drv.C20Any
 /-!
 `sjdriver` — reads case lines `op args… => impl-observation` on stdin, runs the Lean model and the
 executable specification on each, prints
@@ -59,6 +60,7 @@ def allHandlers : List (String × Handler) :=
     LineCol.handlers,
     C19b.handlers,
     Readers.handlers,
+    C20Any.handlers,
   ]
 
 def findHandler (op : String) : Option Handler := (allHandlers.find? (·.1 == op)).map (·.2)
